@@ -22,6 +22,7 @@ import waitress.parser
 import waitress.receiver
 import waitress.utilities
 import waitress.proxy_headers
+import collections
 
 TRACE_FILES = tuple(
     m.__file__ for m in (waitress.channel, waitress.task, waitress.server,
@@ -53,6 +54,17 @@ class SimChannel(waitress.channel.HTTPChannel):
         if sim is not None:
             sim.chan_by_cid[self.sim_cid] = self
         waitress.channel.HTTPChannel.__init__(self, server, sock, addr, adj, map=map)
+
+
+class _RecordingQueue(collections.deque):
+    def __init__(self, k):
+        collections.deque.__init__(self)
+        self._k = k
+
+    def popleft(self):
+        t = collections.deque.popleft(self)
+        self._k.log("task_pop", getattr(t, "sim_cid", None))
+        return t
 
 
 class LogCapture(logging.Handler):
@@ -361,6 +373,8 @@ class Simulation:
         self.adj = adj
         self.map = RecordingDict(k)
         self.dispatcher = waitress.task.ThreadedTaskDispatcher()
+        # observe hand-outs: which worker took the task of which connection, and when (the real deque, recorded)
+        self.dispatcher.queue = _RecordingQueue(self.k)
         self.dispatcher.set_thread_count(adj.threads)
         for i in range(self.n_listeners):
             if self.unix:
